@@ -17,6 +17,6 @@ CONSTANTS
   MaxSteps = 2
   HostileSteps = 1
   AllScopes = TRUE
-  GenWhat = {"checkerops", "checkerlist", "selectlist", "selectops", "listfail", "trees"}
+  GenWhat = {"checkerops", "checkerlist", "selectlist", "selectops", "listfail", "trees", "checkerfaults", "ill"}
   GenFull = TRUE
 CHECK_DEADLOCK FALSE
